@@ -37,7 +37,7 @@ const SPECIALS: &[&[&str]] = &[
     &["let x_d = []", "let y_d = [1, 2, 3]", "let z_d: List<Length> = [1 m, 2 cm]", "[[1, 2], [3]]", "[]"],
     &["20 °C", "-5 °F", "300 K -> °C", "(20 °C) -> °F", "20.5 °C -> K", "0 °C + 1 K"],
     &["\"plain\"", "\"a {1 + 1} b\"", "\"esc \\\" \\\\ \\n \\t end\"", "\"{{ literal }}\"", "\"{2 m} and {\"inner\"}\"", "\"{1/3:.3f}\"", "\"{12:>6}|\"", "\"nested {\"a {1 + 2} b\"} c\""],
-    &["@name(\"Foo bar\")\n@url(\"https://example.com/a?b=c\")\n@description(\"Some text, with a comma\")\n@metric_prefixes\n@aliases(foos, fo: short)\nunit foo_u = 3 m", "2 kilofoo_u + 1 fo", "@aliases(quux: both)\n@binary_prefixes\nunit bar_u: Length = 2 foo_u", "1 kibibar_u -> m"],
+    &["@name(\"Foo bar\")\n@url(\"https://example.com/a?b=c\")\n@description(\"Some text, with a comma\")\n@metric_prefixes\n@aliases(foos, fo: short)\nunit foo_u = 3 m", "2 kilofoo_u + 1 fo", "@aliases(quux: both)\n@binary_prefixes\nunit bar_u: Length = 2 foo_u", "1 kibibar_u -> m", "@metric_prefixes\n@aliases(fbbn: none, fbbs: short, fbbl: long, fbbo: both)\nunit foobaz_u: Length = 3 m", "2 fbbn + 1 kfbbs + 1 kilofbbl"],
     &["dimension Dim_a", "unit base_a: Dim_a", "dimension Dim_c = Length^2 / Time = Area / Time", "unit pixel_b", "2 pixel_b * 3", "@metric_prefixes\n@aliases(sq: short)\nunit squib: Dim_a^2 / Length = 3 base_a^2 / m"],
     &["fn f_g<T: Dim>(x: T, y: T) -> T^2 = x * y", "fn f_h(x) = x^2 + x", "fn f_i(x: Length, y: Time) -> Velocity = x / y", "fn f_j(x: Scalar) -> Scalar = y + z\n  where y = x * 2\n  and z = y + 1", "fn f_k<A: Dim, B: Dim>(a: A, b: B) = a^2 / b", "f_j(2) + f_h(3)", "fn f_l(xs: List<Length>) -> Length = sum(xs)", "fn f_m(f: Fn[(Scalar) -> Scalar], x: Scalar) -> Scalar = f(f(x))", "f_m(sqr, 3)", "fn f_p(a: Length, t) = a / t + 1 m/s", "fn f_q(n, s: String, k) = if n > k then s else \"x\"", "f_p(3 m, 2 s)", "f_q(1, \"a\", 2)"],
     &["@name(\"Named fn\")\n@description(\"Doc text\")\n@url(\"https://example.com\")\n@example(\"f_n(1)\", \"An example\")\nfn f_n(x: Scalar) -> Scalar = x + 1", "f_n(2)", "@name(\"A constant\")\n@aliases(c_alias)\nlet c_n: Length = 5 m", "c_alias * 2"],
